@@ -114,6 +114,13 @@ SubChange(op, t) ==
   /\ hist' = Log([a |-> "Sub", op |-> op, t |-> t])
   /\ UNCHANGED <<q, cut, connected, nfr, nrd, last>>
 
+(* the same client object connects again after its connection was lost: a new connection has no subscriptions *)
+Reconnect ==
+  /\ ~connected
+  /\ q' = <<>> /\ cut' = "open" /\ csub' = {} /\ suball' = FALSE /\ connected' = TRUE
+  /\ hist' = Log([a |-> "Reconnect"])
+  /\ UNCHANGED <<nfr, nrd, last>>
+
 Read(tm, ack, sync) ==
   /\ nrd < MaxReads
   /\ LET r == ReadOp(State, tm, ack, sync) IN
@@ -129,6 +136,7 @@ Next ==
   \/ \E k \in {"fin", "finmid", "finbody", "rst"} : Cut(k)
   \/ \E op \in {"sub", "unsub", "suball", "unsuball"} : \E t \in Types : SubChange(op, t)
   \/ \E tm \in TimeoutClasses : \E ack, sync \in BOOLEAN : Read(tm, ack, sync)
+  \/ Reconnect
 
 NoLast == [res |-> "none", exc |-> "", id |-> 0, q |-> <<>>, connected |-> TRUE,
            pre |-> [q |-> <<>>, cut |-> "open", csub |-> {}, suball |-> FALSE, connected |-> TRUE],
